@@ -19,6 +19,7 @@ import (
 	"net/http/httptest"
 	"os"
 	"path/filepath"
+	"sort"
 	"sync"
 	"sync/atomic"
 	"syscall"
@@ -799,8 +800,23 @@ func cmdConcX(args []string) error {
 					interOK := true
 					var lease string
 					fired := false
+					snapOf := func(st *queue.SQLiteStore) []jmsg {
+						envs, err := st.VerifSnapshot()
+						if err != nil {
+							return nil
+						}
+						out := make([]jmsg, 0, len(envs))
+						for _, e := range envs {
+							out = append(out, canonEnv(e))
+						}
+						sort.Slice(out, func(a, b int) bool { return out[a].ID < out[b].ID })
+						return out
+					}
+					q0 := snapOf(s2)
+					qMid := q0
 					hook = func() {
 						fired = true
+						defer func() { qMid = snapOf(s2) }()
 						rq, err := s2.RequeueMessages(queue.MessageRequeueRequest{IDs: []string{"ip-0"}})
 						if err != nil || rq.Requeued != 1 {
 							interOK = false
@@ -832,6 +848,8 @@ func cmdConcX(args []string) error {
 						res, opErr = s1.RequeueMessagesByFilter(queue.MessageManageFilterRequest{Route: "/p", State: state, Limit: 10})
 					}
 					hook = nil
+					qAfter := snapOf(s2)
+					opNow := clock.now
 					early, lateMissing, freshFailed := 0, 0, 0
 					if fired && interOK {
 						if inter == "requeue-lease-nack" {
@@ -866,7 +884,8 @@ func cmdConcX(args []string) error {
 					}
 					emit(map[string]interface{}{"k": "cx", "scenario": "interposed", "op": op, "interposed": inter, "atClockReading": j, "messages": n,
 						"fired": fired, "setupOK": setupOK, "interposedOK": interOK, "opOK": opErr == nil, "requeued": res.Requeued, "matched": res.Matched,
-						"offeredEarly": early, "missingAfterDelay": lateMissing, "freshLeaseAckFailed": freshFailed})
+						"offeredEarly": early, "missingAfterDelay": lateMissing, "freshLeaseAckFailed": freshFailed,
+						"now": opNow, "f": map[string]interface{}{"route": "/p", "state": string(state), "limit": 10}, "q0": q0, "q": qMid, "after": qAfter})
 					_ = s1.Close()
 					_ = s2.Close()
 					os.Remove(path)
